@@ -41,6 +41,8 @@ ASSUMPTIONS = [
     "repositories: generated task programs (several executions with edits in between), tags on executions / jobs / "
     "values with update and delete history, File-valued and list-of-File results; sqlite on both sides",
     "roots are execution ids (all of them or a random subset), as in the property's quantifier",
+    "repeated transfer: after the first transfer tags of a root execution are updated / deleted / added in the source and "
+    "the same roots are transferred again; Tag / TagEdit rows and the CURRENT tags of source and destination are compared",
     "transfer = RedunClient._sync_records (the body of push and pull) or `redun export` + `redun import` through files",
     "record equality is up to the order of rows inside a table; CallEdge.call_order is compared as the relative order "
     "of a node's children (the serialized record carries a list, not the numbers)",
@@ -154,6 +156,32 @@ class Repo:
                 self.tag_ops += 1
         finally:
             ctl_db.close_scheduler(s)
+
+
+def seed_tags(path, exec_id):
+    """two current tags on an execution that will be updated / deleted between two transfers"""
+    from redun.backends.base import TagEntity
+    s = ctl_db.new_scheduler(path)
+    try:
+        s.backend.record_tags(TagEntity.Execution, exec_id, [("rep", "v1"), ("del", "x")])
+    finally:
+        ctl_db.close_scheduler(s)
+
+
+def edit_tags(path, exec_id):
+    """`redun tag update` / `redun tag rm` in the source: rep=v1 -> rep=v2, del=x deleted, new=1 added"""
+    from redun.backends.base import TagEntity
+    s = ctl_db.new_scheduler(path)
+    try:
+        s.backend.update_tags(TagEntity.Execution, exec_id, ["rep"], [("rep", "v2")])
+        s.backend.delete_tags(exec_id, [("del", "x")])
+        s.backend.record_tags(TagEntity.Execution, exec_id, [("new", 1)])
+    finally:
+        ctl_db.close_scheduler(s)
+
+
+def current_tags(d, ids):
+    return sorted((t[2], t[3], t[4]) for t in d["tags"] if t[0] in ids and t[5])
 
 
 def config_dir(env, db_path):
@@ -354,6 +382,7 @@ def run(ctx):
                 c2.repos[0] = dst
                 c2.run(0)
                 dst_before = ctl_db.dump_db(dst, I)
+            seed_tags(repo.path, roots[0])
             dsrc = ctl_db.dump_db(repo.path, I)
             try:
                 n1 = do_transfer(env, repo.path, dst, roots_arg, how)
@@ -364,6 +393,7 @@ def run(ctx):
                 continue
             d1 = ctl_db.dump_db(dst, I)
             ids = closure(dsrc, [I.id(x) for x in roots])
+            dsrc_first, d1_first = dsrc, d1
             ok = compare_transfer(ctx, label, dsrc, d1, ids, dst_before)
             # once more: nothing may change
             try:
@@ -376,6 +406,29 @@ def run(ctx):
             if d2 != d1 or (n2 not in (None, 0)):
                 ctx.violation(SIG["again"][0], SIG["again"][1], dict(label, reported_new=n2),
                               expected="no change", actual=ctl_db.diff_dumps(d1, d2, ctl_db.MODEL_TABLES))
+            # tags are updated / deleted in the source, then the same roots are transferred again: the destination
+            # must end with the same Tag / TagEdit rows and the same CURRENT tags as the source
+            edit_tags(repo.path, roots[0])
+            dsrc3 = ctl_db.dump_db(repo.path, I)
+            d3 = None
+            try:
+                do_transfer(env, repo.path, dst, roots_arg, how)
+                d3 = ctl_db.dump_db(dst, I)
+            except Exception as e:  # noqa: BLE001
+                ctx.violation("C23-transfer-raises", "the transfer after tag edits raised", label,
+                              expected="records transferred", actual=repr(e)[:300], kind="history")
+            if d3 is not None:
+                ids3 = closure(dsrc3, [I.id(x) for x in roots])
+                compare_transfer(ctx, dict(label, step="re-transfer after tag update/delete in the source"), dsrc3, d3, ids3,
+                                 dst_before)
+                if current_tags(dsrc3, ids3) != current_tags(d3, ids3):
+                    ctx.violation("C23-tag-status-differs",
+                                  "after re-transferring edited tags the destination's current tags differ from the "
+                                  "source's (a superseded or deleted tag stays current)",
+                                  dict(label, step="re-transfer after tag update/delete in the source"),
+                                  expected=repr(current_tags(dsrc3, ids3))[:300], actual=repr(current_tags(d3, ids3))[:300],
+                                  kind="history")
+                dsrc, d1 = dsrc3, d3
             # and back: the source must not change
             try:
                 do_transfer(env, dst, repo.path, None, how)
@@ -404,17 +457,22 @@ def run(ctx):
             # ---- the same transfer on the model
             lines.append(f"(variant {v})")
             checks.append(None)
-            lines.append(f"(load i0 {ctl_db.dump_to_sx(dsrc)})")
+            lines.append(f"(load i0 {ctl_db.dump_to_sx(dsrc_first)})")
             checks.append(None)
             lines.append(f"(load i1 {ctl_db.dump_to_sx(dst_before if dst_before is not None else ctl_db.dump_db(env.template, I))})")
             checks.append(None)
             rs = ctl_db._sxv([I.id(x) for x in roots])
             lines.append(f"(iter i0 {rs})")
-            checks.append(("iter", label, ids, dsrc))
+            checks.append(("iter", label, ids, dsrc_first))
             lines.append(f"(xfer i0 i1 {rs})")
-            checks.append(("xfer", label, d1, dst_before))
+            checks.append(("xfer", label, d1_first, dst_before))
             lines.append(f"(xfer i0 i1 {rs})")
-            checks.append(("again", label, d1, None))
+            checks.append(("again", label, d1_first, None))
+            if d3 is not None:
+                lines.append(f"(load i0 {ctl_db.dump_to_sx(dsrc3)})")
+                checks.append(None)
+                lines.append(f"(xfer i0 i1 {rs})")
+                checks.append(("xfer", dict(label, step="re-transfer"), d3, d1_first))
         replies = ctx.model("C23", lines)
         for chk, rep in zip(checks, replies):
             if chk is None:
